@@ -120,6 +120,7 @@ func (pr *Program) allObligations() ([]*Obl, []string, map[string]bool) {
 		all = append(all, c.obls...)
 	}
 	all = append(all, pr.modeM()...)
+	all = append(all, pr.definesObligations()...)
 	all = append(all, pr.modeG(filepath.Join(verifDir, "baseline", "tables.json"))...)
 	return all, errs, assumed
 }
